@@ -3,7 +3,7 @@ import hsuite
 from props.c03 import TRUSTED, ASSUMPTIONS
 COQCHK = False
 NAMES = ['c12']
-PROFILE = {'quick': 500, 'thorough': 3000, 'lengths': [10, 18], 'finale': ['settle'], 'weights': {'bad': 30, 'poll': 10, 'post': 10, 'open': 6, 'open_ws': 3, 'open_rej': 3, 'upgrade': 5, 'frame': 6, 'disc': 4, 'send': 4, 'adv': 6, 'api': 2}, 'p_websocket': 0.8, 'p_polling': 0.9}
+PROFILE = {'quick': 500, 'thorough': 25000, 'lengths': [10, 18], 'finale': ['settle'], 'weights': {'bad': 30, 'poll': 10, 'post': 10, 'open': 6, 'open_ws': 3, 'open_rej': 3, 'upgrade': 5, 'frame': 6, 'disc': 4, 'send': 4, 'adv': 6, 'api': 2}, 'p_websocket': 0.8, 'p_polling': 0.9}
 RULE = ('seeded histories (opens with every connect outcome, polls, posts, upgrade handshakes, WebSocket frames and closes, application calls, refused requests, clock advances) over up to 4 sessions, each run on the threaded and the asyncio server and through the model; '
         'weighted towards refused requests (method, EIO version, transport value, unknown / closed-not-reaped / rejected / wrong-transport session ids, JSONP index, missing upgrade header, disallowed origin) issued at every point of session lives, with before/after state snapshots. distinct = distinct (server, configuration, stimuli)')
 
